@@ -130,3 +130,10 @@ add("C16", "exploration", "exhaustive enumeration of all depth-first-ordered SWC
     "compared with vf/refswc.py, and lengths/connectivity must be invariant under ncomp.",
     "One generic geometry valuation (fixed formulas); branch order and cut positions of max_branch_len are undocumented and compared up to isomorphism / by contract; junction branches are contracted.",
     "DESIGN.md §7 C16")
+
+add("C20", "model_checking", "stateless DFS over the complete tree of RNG answers (choice oracle replacing numpy/pandas sampling inside the connectivity builders), with a deviation bound beyond a stated size, each outcome checked on the real builder's edge table",
+    "The only nondeterminism of fully_connect / sparse_connect / connectivity_matrix_connect (numpy binomial/choice, pandas group sampling) is owned by a choice oracle; every path of the outcome tree is replayed on the real "
+    "builder (all boolean matrices up to 3x3, population sizes 1-3 equal/different/overlapping, p in {0, 0.5, 1}, every binomial answer) and the resulting (pre cell, post cell) multiset, pre/post sites and table "
+    "well-formedness are checked. The harness asserts that numpy's global RNG state is untouched (no unowned nondeterminism).",
+    "Trees beyond the stated caps are explored within a deviation bound (<=2/<=1 non-default answers; default path only for most 3x3 matrices in quick) — exhaustive=false is reported; populations above 3 cells not explored.",
+    "DESIGN.md §7 C20")
